@@ -150,8 +150,9 @@ def xml2dict(string):
     def _recurse(elem):
         data = {}
         for subelem in elem:
-            if hasattr(subelem, "text") and subelem.text.strip():
-                field = Field(subelem.text, subelem.attrib)
+            if len(subelem) == 0 or (subelem.text or "").strip():
+                # leaf: an empty element is an empty text
+                field = Field(subelem.text or "", subelem.attrib)
                 if subelem.tag not in data:
                     data[subelem.tag] = field
                 elif not isinstance(data[subelem.tag], list):
